@@ -281,6 +281,9 @@ type Outcome struct {
 	AtFrame   int    // index of the frame that produced the event
 	// BadDeflate: a compressed message whose payload is not a DEFLATE stream was met; what a receiver makes of it is not modelled
 	BadDeflate bool
+	// InflatedOverLimit: a compressed message within the read limit on the wire inflates to more than the limit;
+	// whether a receiver applies its limit to the inflated size as well is not fixed by the statement
+	InflatedOverLimit bool
 }
 
 func validCloseCode(c int) bool {
@@ -381,6 +384,9 @@ func ReceiveExt(frames []Frame, server bool, limit int64, deflate bool) Outcome 
 						o.BadDeflate = true
 						o.Event, o.Why, o.AtFrame = EvViolation, "compressed message is not a DEFLATE stream", i
 						return o
+					}
+					if limit > 0 && int64(len(plain)) > limit {
+						o.InflatedOverLimit = true
 					}
 					acc = plain
 				}
